@@ -31,6 +31,24 @@ def gen_base(seed, i):
     if dim == 3 and rng.uniform() < 0.4:
         feats.append("hdiff")
     net = netgen.gen_net(rng, dim=dim, noise=True, features=tuple(feats))
+    if dim >= 2 and rng.uniform() < 0.4:
+        # sightings to a reference mark that is not a point of the network: gama leaves them out (passive
+        # observations in the middle of a cluster); every re-expression must still give the same adjustment
+        for cl in net.clusters:
+            if cl.kind == "obs" and rng.uniform() < 0.6:
+                o = netgen.Obs("direction", cl.station, "REFMARK", stdev=float(rng.choice([3.0, 7.0, 15.0])))
+                o.val = o.true = float(rng.uniform(0, 400))
+                pos = int(rng.integers(0, len(cl.obs)))
+                cl.obs.insert(pos, o)
+                if cl.cov is not None:
+                    C = np.array(cl.cov["C"]); n0 = C.shape[0]
+                    C2 = np.zeros((n0 + 1, n0 + 1))
+                    idx = [k for k in range(n0 + 1) if k != pos]
+                    C2[np.ix_(idx, idx)] = C
+                    C2[pos, pos] = o.stdev ** 2
+                    nz = [abs(a - b) for a in range(n0 + 1) for b in range(n0 + 1) if C2[a, b] != 0]
+                    cl.cov = dict(band=max(nz) if nz else 0, C=C2)
+        feats.append("passive-sightings")
     return rng, net, feats
 
 
@@ -78,6 +96,9 @@ def transformations(rng, net, tier):
     # 7 axes x handedness
     combos = [(a, h) for a in netgen.AXES_ALL for h in ("left-handed", "right-handed")]
     pick = combos if tier == "thorough" else [combos[int(k)] for k in rng.choice(len(combos), 4, replace=False)]
+    if tier != "thorough" and any(o.kind == "azimuth" for _, o in net.all_obs()):
+        # azimuths tie the network to north: every axes-xy value at least once
+        pick = list(dict.fromkeys(pick + [(a, str(rng.choice(["left-handed", "right-handed"]))) for a in netgen.AXES_ALL]))
     for a, h in pick:
         if (a, h) == ("ne", "left-handed"):
             continue
